@@ -149,7 +149,7 @@ type privStruct struct {
 
 func awkFunc() {}
 
-const nAwk = 35
+const nAwk = 38
 
 // awkward returns the k-th value of the catalogue of awkward Go values.
 func (w *World) awkward(k int) any {
@@ -226,6 +226,15 @@ func (w *World) awkward(k int) any {
 		return badStr2{1}
 	case 34:
 		return &badStr3{1}
+	case 35:
+		return struct{ A any }{[]int{1}} // a comparable TYPE whose == panics at run time
+	case 36:
+		return [1]any{[]string{"s"}}
+	case 37:
+		return struct {
+			A any
+			B int
+		}{map[string]int{"k": 1}, 2}
 	}
 	return nil
 }
